@@ -90,6 +90,16 @@ Proof.
          end; injection H as <- _; reflexivity.
 Qed.
 
+(* a failed evaluation leaves the accuracy estimate of the completed trials (the interval it had selected was not subdivided) *)
+Lemma iteration_raised_mind s s' x : iteration o p s Raised = (s', ObjectiveRaised x) -> mind s' = mind s.
+Proof.
+  unfold iteration. intros H.
+  assert (E : mind (recalc_all o p s) = mind s) by (unfold recalc_all; destruct (recalc s); reflexivity).
+  repeat match type of H with
+         | context [match ?e with _ => _ end] => let E' := fresh "E" in destruct e eqn:E'; try discriminate H
+         end; injection H as <- _; cbn [mind]; exact E.
+Qed.
+
 Theorem failure_keeps_invariant s s' x : AllInv o p s -> iteration o p s Raised = (s', ObjectiveRaised x) -> AllInv o p s'.
 Proof.
   intros A H. destruct (iteration_raised s s' _ A H) as (R & B & M & _ & _ & _ & _ & _ & F & _).
